@@ -45,8 +45,9 @@ from vlib import harness  # noqa: E402
 PROP = "C24"
 
 #: shapes (see buckets above) to leave out of the violation report once they are known findings;
-#: they are then counted with ctx.exclude(). Empty: everything is reported.
-EXCLUDE = set()
+#: they are then counted with ctx.exclude(). Empty: everything is reported. Shapes: branch_condition,
+#: later_argument, exempt_argument, struct_argument, outer_context (env VERIF_C24_EXCLUDE=a,b overrides).
+EXCLUDE = set(filter(None, os.environ.get("VERIF_C24_EXCLUDE", "").split(",")))
 
 KW = ("unitary", "control", "dagger", "power")
 KW_FLAGS = {"unitary": "CDP", "control": "C", "dagger": "D", "power": "P"}
@@ -917,9 +918,9 @@ SPEC = harness.Spec(
         "tuples containing qubits are outside the generated domain",
     ],
     shards={"quick": 16, "thorough": 16},
-    budget_s={"quick": 75, "thorough": 900},
-    params={"quick": {"enum": 1200, "n": 400}, "thorough": {"enum": 0, "n": 6000}},
-    min_nontrivial=300,
+    budget_s={"quick": 90, "thorough": 900},
+    params={"quick": {"enum": 1000, "n": 300}, "thorough": {"enum": 0, "n": 6000}},
+    min_nontrivial=1000,
 )
 
 if __name__ == "__main__":
